@@ -119,6 +119,10 @@ class EventDataframeDataReader(AbstractDataframeDataReader):
             raise LeaspyDataInputError("Events must be above 0")
 
         # Check event bool good format
+        if df_event[self.event_bool_name].isna().any():
+            raise LeaspyDataInputError(
+                f"The event indicator column '{self.event_bool_name}' should NOT contain any nan."
+            )
         if not np.array_equal(
             df_event[self.event_bool_name], df_event[self.event_bool_name].astype(int)
         ):
